@@ -641,6 +641,23 @@ def r20_scorer_table_fields(ctx, rule):
                             'the level of the most common n-grams)', None, g, firm=True)
                 else:
                     ctx.unk(rule, q, 'level guard %s is not of a form this rule knows' % U(g.test)[:50])
+    # LN.level: one level per line, the WHOLE (stripped) line is the number
+    for lp in [x for x in walk_local(fn) if isinstance(x, ast.For) and isinstance(x.target, ast.Name)]:
+        apps = [c for c in calls_in(lp) if isinstance(c.func, ast.Attribute) and c.func.attr == 'append' and U(c.func.value) == 'self.ln' and len(c.args) == 1]
+        if not apps:
+            continue
+        n += 1
+        lv = U(apps[0].args[0])
+        defs = [st.value for st in lp.body if isinstance(st, ast.Assign) and len(st.targets) == 1 and U(st.targets[0]) == lv]
+        if len(defs) == 1 and isinstance(defs[0], ast.Call) and call_name(defs[0]) == 'int' and len(defs[0].args) == 1:
+            a = defs[0].args[0]
+            if isinstance(a, ast.Subscript):
+                ok = False
+                ctx.bad(rule, q, 'LN level read as int(%s)' % U(a), 'a line of LN.level holds one number and nothing else: a subscript of the line '
+                        'takes a single digit of it (level 10 is read as 1)', None, apps[0], firm=True)
+        else:
+            ok = False
+            ctx.unk(rule, q, 'the LN level is not read as int(<line>) in a form this rule knows')
     if ctx.floor(rule, q, n, 2, 'table stores in the scorer loader') and ok:
         ctx.ok(rule, q, 'IP and CP map field 1 to int(field 0); only negative levels are refused')
 
@@ -675,7 +692,9 @@ def rules(tier):
             # C10-ca / C18-ca: OMEN config key read with a fallback
             ('C11.R19', _shared_rule('c10', 'r20_omen_config_keys')),
             # mutation sweep: the scorer's table loader storing under field 0 / refusing level 0
-            ('C11.R20', _shared_rule('c11', 'r20_scorer_table_fields'))]
+            ('C11.R20', _shared_rule('c11', 'r20_scorer_table_fields')),
+            # C11-eb: _find_cp memoised without bottom_level - an exact-level lookup answered from a range lookup
+            ('C11.R21', _shared_rule('c10', 'r4_exact_last_transition'))]
 
 
 META = {
